@@ -62,6 +62,7 @@ type c11Pod struct {
 	Metric      int64 // bytes in use
 	pod         *corev1.Pod
 	alreadyEvic bool
+	nilMaps     bool
 	outcomes    []bool
 }
 
@@ -205,8 +206,9 @@ func (p *c11Pod) allowedByPriority(policy string, threshold int32) bool {
 
 var c11Policies = []string{string(features.BEMemoryEvict), string(features.MemoryAllocatableEvict), string(features.MemoryEvict)}
 
-func c11GenPod(t *rapid.T, i int, prioPool, friendlyPrio []int32, friendly bool, scale int64) *c11Pod {
-	p := &c11Pod{Idx: i, Name: fmt.Sprintf("p%d", i)}
+func c11GenPod(t *rapid.T, prioPool, friendlyPrio []int32, friendlyCase bool, scale int64) *c11Pod {
+	p := &c11Pod{}
+	friendly := friendlyCase && rapid.IntRange(0, 4).Draw(t, "eligiblePod") > 0
 	p.QoS = rapid.SampledFrom([]string{"", "BE", "BE", "BE", "BE", "LS", "LS", "LSR", "LSE", "SYSTEM", "bogus"}).Draw(t, "qos")
 	prioKind := rapid.IntRange(0, 19).Draw(t, "prioKind")
 	if friendly && prioKind > 1 {
@@ -312,7 +314,13 @@ func c11GenPod(t *rapid.T, i int, prioPool, friendlyPrio []int32, friendly bool,
 			p.Metric += rapid.Int64Range(-1, 1).Draw(t, "memUsedJitter")
 		}
 	}
+	p.nilMaps = rapid.IntRange(0, 9).Draw(t, "nilMaps") == 9 // objects decoded from the API have nil maps when empty
+	return p
+}
 
+// build names the pod by its position and renders the corev1.Pod
+func (p *c11Pod) build(i int) {
+	p.Idx, p.Name = i, fmt.Sprintf("p%d", i)
 	pod := &corev1.Pod{ObjectMeta: metav1.ObjectMeta{Name: p.Name, Namespace: "ns", UID: types.UID("uid-" + p.Name), Labels: map[string]string{}, Annotations: map[string]string{}}}
 	if p.QoS != "" {
 		pod.Labels[apiext.LabelPodQoS] = p.QoS
@@ -332,7 +340,7 @@ func c11GenPod(t *rapid.T, i int, prioPool, friendlyPrio []int32, friendly bool,
 	if p.PolicyAnn.Set {
 		pod.Annotations[apiext.AnnotationPodEvictPolicy] = p.PolicyAnn.Value
 	}
-	if rapid.IntRange(0, 9).Draw(t, "nilMaps") == 0 { // objects decoded from the API have nil maps when empty
+	if p.nilMaps {
 		if len(pod.Labels) == 0 {
 			pod.Labels = nil
 		}
@@ -361,7 +369,6 @@ func c11GenPod(t *rapid.T, i int, prioPool, friendlyPrio []int32, friendly bool,
 		pod.Spec.Containers = append(pod.Spec.Containers, corev1.Container{Name: fmt.Sprintf("c%d", ci), Resources: corev1.ResourceRequirements{Requests: rl}})
 	}
 	p.pod = pod
-	return p
 }
 
 // ---------------------------------------------------------------- fakes: informer, metric cache, executor
@@ -514,16 +521,18 @@ func c11GenScene(t *rapid.T) *c11Scene {
 	thAlloc := rapid.SampledFrom([]int32{5999, 5999, 7999, 7999, 3999, 5500, 7500, 0}).Draw(t, "allocatableEvictPriorityThreshold")
 	pool := []int32{0, 1, 100, 3000, 3500, 3999, 4000, 5000, 5500, 5999, 6000, 7000, 7500, 7999, 8000, 9000, 9500, 9999,
 		thUsed - 1, thUsed, thUsed, thUsed + 1, thAlloc - 1, thAlloc, thAlloc, thAlloc + 1}
-	n := rapid.SampledFrom([]int{1, 2, 3, 4, 4, 5, 5, 6, 6, 7, 8, 8, 0}).Draw(t, "nPods")
 	friendlyCase := rapid.IntRange(0, 3).Draw(t, "mostlyEligiblePods") > 0
 	lowTh := thUsed
 	if thAlloc < lowTh {
 		lowTh = thAlloc
 	}
 	friendlyPrio := []int32{lowTh, lowTh, lowTh - 1, lowTh - 500, thAlloc, thUsed, 5500, 7500}
-	for i := 0; i < n; i++ {
-		friendly := friendlyCase && rapid.IntRange(0, 4).Draw(t, "eligiblePod") > 0
-		s.pods = append(s.pods, c11GenPod(t, i, pool, friendlyPrio, friendly, s.scale))
+	s.pods = rapid.SliceOfN(rapid.Custom(func(t *rapid.T) *c11Pod { return c11GenPod(t, pool, friendlyPrio, friendlyCase, s.scale) }), 1, 8).Draw(t, "pods")
+	if rapid.IntRange(0, 24).Draw(t, "emptyNode") == 24 {
+		s.pods = nil
+	}
+	for i, p := range s.pods {
+		p.build(i)
 	}
 	// thresholds (webhook-valid ranges; an unset field disables the feature that needs it)
 	cfg := &slov1alpha1.ResourceThresholdStrategy{}
@@ -886,7 +895,7 @@ func TestVerifC11MemEndToEnd(t *testing.T) {
 		failBias := rapid.IntRange(0, 3).Draw(t, "failBias")
 		for _, p := range s.pods {
 			ex.byKey["ns/"+p.Name] = p
-			p.alreadyEvic = rapid.IntRange(0, 7).Draw(t, "alreadyEvicted") == 0
+			p.alreadyEvic = rapid.IntRange(0, 7).Draw(t, "alreadyEvicted") == 7
 			for i := 0; i < 3; i++ {
 				p.outcomes = append(p.outcomes, rapid.IntRange(0, 3).Draw(t, "evictFails") >= failBias)
 			}
